@@ -17,6 +17,9 @@ ASSUMPTIONS = [
     "TLC 1.8.0 run with -workers 1; its PrintT edge export is parsed by mc/core/tlc.py",
 ]
 KINDS = [k for k in G.ALL_TAGS if G.KINDS[k].origin in ("device", "both")]
+# vector messages without child elements (a state-only update, an empty definition): what a message IS does not depend
+# on how many elements it lists
+KINDS += ["setBLOBVector~0", "setTextVector~0", "setNumberVector~0", "defBLOBVector~0", "defSwitchVector~0"]
 NSH = 15
 
 
@@ -146,8 +149,9 @@ def check(model, ev, got, exc, exp):
             why = "duplicate"
         else:
             why = "got=delivered" if c in gc else "got=missing"
-        fails.append(("delivery-set", "kind=%s,policy=%s,%s" % ("setBLOBVector" if kind == "setBLOBVector" else ("getProperties" if kind == "getProperties" else "non-blob"), pol, why), "%r: clients got %r, expected %r (policies %r)" % (ev, gc, sorted(to_cli), model.pol)))
-    if kind != "getProperties":
+        bk = R.base_kind(kind)
+        fails.append(("delivery-set", "kind=%s%s,policy=%s,%s" % ("setBLOBVector" if bk == "setBLOBVector" else ("getProperties" if bk == "getProperties" else "non-blob"), ",childless" if kind.endswith("~0") else "", pol, why), "%r: clients got %r, expected %r (policies %r)" % (ev, gc, sorted(to_cli), model.pol)))
+    if R.base_kind(kind) != "getProperties":
         gd = [i for k, i in got if k == "d"]
         if gd:
             fails.append(("device-message-to-device", "kind=%s" % kind, "%r: devices got %r" % (ev, gd)))
@@ -158,7 +162,7 @@ def run_shard(shard):
     tier, what, idx = shard
     n = 2 if tier == "quick" else 3
     if what == "graph":
-        st = R.explore(n, KINDS, check, idx, NSH)
+        st = R.explore(n, KINDS, check, idx, NSH, primed=True)
         return c04.pack(st, n, idx)
     if what == "reentrant":
         return reentrant_fanout()
@@ -221,7 +225,8 @@ def run_tlc(tier, n):
     parent = {}
     edges = 0
     summary = None
-    nonblob = [k for k in KINDS if k != "setBLOBVector"]
+    nonblob = [k for k in KINDS if R.base_kind(k) != "setBLOBVector"]
+    blobkinds = [k for k in KINDS if R.base_kind(k) == "setBLOBVector"]
     for e in tlc.run_edges("Router.tla", "Router%d.cfg" % n):
         if isinstance(e, dict):
             summary = e
@@ -242,7 +247,7 @@ def run_tlc(tier, n):
         if act == "send":
             isblob, d, snd, deliver = e[4], e[5], e[6], e[7]
             dev = None if d == "none" else d
-            kinds = ["setBLOBVector"] if isblob else nonblob
+            kinds = blobkinds if isblob else nonblob
             s = replay_tlc_state(path, n)
             if key_of(*impl_state(s)) != src:
                 viol("tlc-state-mismatch", "before-send", "impl %r vs TLC %r after %r" % (impl_state(s), (reg, pol), path), path)
@@ -263,7 +268,7 @@ def run_tlc(tier, n):
 
                     viol("raises", "kind=%s,%s" % (kind, lib.exc_site(exc)), repr(exc), path + [("send", kind, dev, sender)])
                 elif gc != deliver or ncl != len(deliver):
-                    viol("tlc-delivery-set", "kind=%s" % ("setBLOBVector" if isblob else ("getProperties" if kind == "getProperties" else "non-blob")), "TLC edge %r: impl delivered to %r x%d, model %r" % (e[3:], sorted(gc), ncl, sorted(deliver)), path + [("send", kind, dev, sender)])
+                    viol("tlc-delivery-set", "kind=%s%s" % ("setBLOBVector" if isblob else ("getProperties" if kind == "getProperties" else "non-blob"), ",childless" if kind.endswith("~0") else ""), "TLC edge %r: impl delivered to %r x%d, model %r" % (e[3:], sorted(gc), ncl, sorted(deliver)), path + [("send", kind, dev, sender)])
         else:
             if act == "enable":
                 a = ("enable", e[4], e[5], e[6])
